@@ -134,19 +134,32 @@ method("close", "(%s) -> Optional[Ref_Deferred]" % SELF, props=["C06", "C10", "C
        ensures={"closed[C20]": "self._dDown is not None and result == self._dDown and len(self.requests) == 0"},
        loops={"while#1": dict(index="n", inv=["self._dDown is not None"])})
 
-method("disconnect", "(%s) -> None" % SELF, props=["C11"])
+method("disconnect", "(%s) -> None" % SELF, props=["C11"],
+       ensures={
+           # C11: "the silent connection is dropped": exactly the connection in use is told to go
+           "drops-the-connection-in-use[C11]": "n_events('LoseConnection') == ite(old(self.proto) is not None, 1, 0)",
+           # ... and it stays the tracked connection until ITS loss is reported (_connectionLost clears it and starts the one
+           # replacement): forgetting it here lets makeRequest dial a second connection next to the dying one
+           "tracked-until-its-loss-is-reported[C11]": "self.proto == old(self.proto) and self.connector == old(self.connector)"})
 method("updateMetadata", "(%s, new: BrokerMetadata) -> None" % SELF, props=["C08"],
        ensures={"updated[C08]": "self.host == new.host and self.port == new.port and self.node_id == new.node_id"},
        raises={"ValueError": "iff:self.node_id != new.node_id"})
 
-method("_connect", "(%s) -> None" % SELF, inline_at_calls=True, inline_only=True)
+# inlined at its two call sites (makeRequest, _connectionLost) AND checked on its own: a connection cycle - the first
+# attempt after a request found no connection, or after an established connection dropped - starts with a failure count
+# of zero, so the first failed attempt consults the retry policy with 1 ("the failure count reset after a success")
+method("_connect", "(%s) -> None" % SELF, props=["C10"], inline_at_calls=True,
+       requires=["self.proto is None", "self.connector is None", "self._dDown is None"],
+       checkpoints={"call:maybeDeferred#1": {"cycle-starts-with-zero-failures[C10]": "self._failures == 0"}})
 
 ENV = {"self": "Ref__KafkaBrokerClient", "tryConnect": "closure", "connect": "closure", "cbConnect": "closure",
        "ebConnect": "closure", "cbDelayed": "closure"}
 
 
 def closure(name, sig, **kw):
-    d = dict(sig=sig, props=["C10"], entry_point=True, closure_env=dict(ENV))
+    # C06 (a request completes only if a connection is eventually made), C10 (reconnect discipline) and C20 (close()
+    # cancels the attempt in progress) all rest on the connector-live invariant these callbacks maintain
+    d = dict(sig=sig, props=["C06", "C10", "C20"], entry_point=True, closure_env=dict(ENV))
     d['closure_env'].pop(name, None)
     d.update(kw)
     contract(B + "_connect.<%s>" % name)(type('_', (), d))
@@ -158,7 +171,9 @@ closure("connect", "() -> Ref_Deferred", inline_at_calls=True, inline_only=True)
 closure("cbConnect", "(proto: Ref_Proto) -> None", inv_exempt_at_entry=["connector-live", "never-idle"],
         requires=["self.connector is not None", "self.proto is None", "called(self.connector)", "not failed(self.connector)"])
 closure("ebConnect", "(fail: Ref_Failure) -> Any", inv_exempt_at_entry=["connector-live"],
-        requires=["self.connector is not None", "self.proto is None"])
+        requires=["self.connector is not None", "self.proto is None"],
+        # C10: every failed attempt counts, and the back-off is what the configured policy says for that count
+        ensures={"failure-counted[C10]": "implies(old(self._dDown) is None, self._failures == old(self._failures) + 1)"})
 closure("cbDelayed", "(result: Any) -> None", inv_exempt_at_entry=["connector-live"],
         requires=["self.connector is not None", "called(self.connector)", "self.proto is None", "self._dDown is None"])
 
